@@ -83,14 +83,34 @@ PROPS['C07'] = {
                     'points/blobs read paths above the page layer inherit the guarantee through PagedReader::read/read_exact contracts (units rd, blob)'],
 }
 
-FIX_COMMITS = ['4bb8197', '4c9a29a', '15147a8']
+PROPS['C13'] = {
+    'level': 'proof',
+    'kani': ['norm_k'],
+    'claim': ('Layer 1, discharged over the full f64 domain by loop-free Kani harnesses on the real functions: Range::from_min_max accepts exactly '
+              'ordered finite limits (NaN/infinite rejected, no panic) and keeps them bit for bit; for every accepted range and every finite value '
+              'normalize never panics, is never NaN, is >= 0, is 0 at/below the minimum and 0 for a degenerate range; normalize_value: disabled => '
+              'value as f32 bit for bit, no range => 0, range => Range::normalize; from_limits: Some exactly when both limits are present and of the '
+              'same kind among Double/Single/Integer; from_record_data_type: declared min/max else type extremes, scaled integers min*scale+offset. '
+              'Schematic (exact binary grid): normalize(v) == (clamp(v,min,max)-min)/(max-min), 0 below, 1 above. Layer 2 (<= 1, = 1 at the maximum, '
+              'monotone) is DERIVED from that expression structure under stated IEEE-754 facts, not discharged by a solver.'),
+    'trusted': GLOBAL_TRUSTED,
+    'assumptions': [
+        'layer 2 rests on textbook IEEE-754 facts that CBMC does not decide in reasonable time (probed: > 15 min): every basic operation and cast is monotone in each argument; 0 <= x <= r, r > 0 finite => fl(x/r) <= 1; fl(r/r) == 1',
+        'format! on error paths stubbed (alloc::fmt::format) — error messages are not part of the property',
+        'Kani default "NaN on <op>" float checks are not obligations of the property and are filtered by description',
+        'the fall-back order in {intensity,red,green,blue}_from_pointcloud (limits first, then data type) iterates the prototype Vec and is not under contract (Kani: Vec<Record> with String-bearing RecordName too expensive)',
+        'XML parsing of the limits (strings -> f64) is outside (C04)',
+    ],
+}
+
+FIX_COMMITS = ['4bb8197', '4c9a29a', '15147a8', '4e117ba']
 
 _PENDING = 'unit not completed yet in the build round (applicable; see DESIGN.md §1) — not claimed until its obligations are discharged'
 NOT_APPLICABLE = {
     'C01': _PENDING, 'C02': _PENDING, 'C03': _PENDING,
     'C04': 'lives entirely in format!-built strings and roxmltree parsing; no contract within reach of Verus (no str byte reasoning) or Kani (roxmltree does not finish) can state parse(serialise(x)) = x (DESIGN.md §6)',
     'C05': _PENDING, 'C06': _PENDING, 'C08': _PENDING, 'C09': _PENDING, 'C10': _PENDING,
-    'C13': _PENDING, 'C14': _PENDING, 'C15': _PENDING, 'C16': _PENDING, 'C17': _PENDING,
+    'C14': _PENDING, 'C15': _PENDING, 'C16': _PENDING, 'C17': _PENDING,
     'C18': 'about roxmltree name matching and element lookup over arbitrary XML trees; would need an assumed contract on the dependency, which decides nothing (DESIGN.md §6)',
     'C19': 'whole-file composition of C01+C03+C04 plus writer determinism; the XML half is out of reach and whole-program composition is not a per-function contract; decidable ingredients are discharged under C10/C11/C12 (DESIGN.md §6)',
     'C20': 'the tools are main() functions doing process and file I/O; there is no function to put under contract (DESIGN.md §6)',
